@@ -40,7 +40,13 @@ CHAINS = [
     ("SAMI->SAMI", [(SAMIWriter, SAMIReader, (2, ""))], (True, True, True)),
     ("DFXP->SAMI", [(DFXPWriter, DFXPReader, (0, "")), (SAMIWriter, SAMIReader, None)], (True, False, False)),
     ("SAMI->DFXP", [(SAMIWriter, SAMIReader, (2, "")), (DFXPWriter, DFXPReader, None)], (True, False, False)),
+    # wave 7: three-step chains (theorems C11_chain_dfxp_sami_dfxp / C11_chain_sami_dfxp_sami; model chain = request 1110)
+    ("DFXP->SAMI->DFXP", [(DFXPWriter, DFXPReader, (0, "")), (SAMIWriter, SAMIReader, None), (DFXPWriter, DFXPReader, None)],
+     (True, False, False)),
+    ("SAMI->DFXP->SAMI", [(SAMIWriter, SAMIReader, (2, "")), (DFXPWriter, DFXPReader, None), (SAMIWriter, SAMIReader, None)],
+     (True, False, False)),
 ]
+CHAIN_MODEL = {"DFXP->SAMI->DFXP": 0, "SAMI->DFXP->SAMI": 1}
 
 
 def canon(caption):
@@ -169,6 +175,19 @@ def run_chains(ctx, res, nsets):
                 if outs[n + i] != 1:
                     viol.append(dict(base, kind="reader-unbalanced", input=[specs[i]], observed=final[i],
                                      what=f"{name}: reader returned unbalanced style nodes"))
+            # wave 7: the model chain (writer model -> strict parser -> reader model, three times) beside the real chain:
+            # the italic flags of every visible character at the end must agree (a difference = broken tie)
+            if name in CHAIN_MODEL:
+                ms = oracle_batch([(1110, [CHAIN_MODEL[name], "", "", G.wire_nodes(a)]) for a in specs])
+                have = [(m[0], o) for m, o in zip(ms, final) if m != []]
+                res["distribution"]["chain_model_undefined"] = res["distribution"].get("chain_model_undefined", 0) + (len(ms) - len(have))
+                cmp_ = oracle_batch([(1102, [[True, False, False], m, G.wire_nodes(o)]) for m, o in have])
+                for (m, o), r, a in zip(have, cmp_, specs):
+                    key = "chain_model_flags_equal" if r == 1 else "chain_model_flags_differ"
+                    res["distribution"][key] = res["distribution"].get(key, 0) + 1
+                    if r != 1 and len(res["disagreements"]) < 50:
+                        res["disagreements"].append({"fmt": name, "what": "italic flags at the end of the model chain (request 1110) differ "
+                                                     "from those of the real chain", "nodes": a, "impl": o, "model": m})
             # correspondence: span markup of the first written document == model trace
             W, doc, mreq = docs[0]
             pl = [p for p in G.p_payloads(doc) if p.strip() != "&nbsp;"]
@@ -496,7 +515,10 @@ def run(ctx):
     nt = sorted(res["nontrivial"], key=lambda x: len(x[1]))
     res["samples"] = [{"chain": a, "nodes": b[:300]} for a, b in nt[len(nt) // 3:len(nt) // 3 + 3] + nt[-2:]]
     res["clauses"] = {
-        "theorem": ["DFXP / SAMI reader models return depth-balanced style nodes (all trees; end-node dictionaries not compared); "
+        "theorem": ["wave 7: CLOSURE - the reader model's output for a written payload is flat-balanced (end node = start node) over "
+                    "XML Char texts and plain dictionaries; CHAINS DFXP->SAMI->DFXP and SAMI->DFXP->SAMI on the models keep the italic "
+                    "flags of every visible character (C11_chain_*); executed beside the real chains (request 1110)",
+                    "DFXP / SAMI reader models return depth-balanced style nodes (all trees; end-node dictionaries not compared); "
                     "the WebVTT reader model has no style nodes (trivial)",
                     "DFXP writer model: every </span> closes an open <span>, the number left open is the open_span flag (any "
                     "node list); flat balanced spans leave none open; SAMI likewise for flat balanced spans",
